@@ -34,8 +34,12 @@ func main() {
 		cmdEngineReplay(os.Args[2:])
 	case "lib-replay":
 		cmdLibReplay(os.Args[2:])
+	case "cmp-replay":
+		cmdCmpReplay(os.Args[2:])
 	case "grb-faults":
 		cmdGrbFaults(os.Args[2:])
+	case "grb-cut-replay":
+		cmdGrbCutReplay(os.Args[2:])
 	case "grb-writer-replay":
 		cmdGrbWriterReplay(os.Args[2:])
 	default:
